@@ -296,6 +296,12 @@ impl GitSyncServer {
         }
 
         // Check for meta file, create and commit if missing.
+        // Discard uncommitted changes to tracked files: an add_version or add_snapshot that was
+        // interrupted after writing `meta` or `snapshot` and before committing must leave no
+        // trace (the untracked version file is removed by `clean_stray_files` below). This fails
+        // harmlessly in a repository without commits.
+        let _ = git.cmd_ok(local_path, &["reset", "--hard"]);
+
         let meta_path = local_path.join("meta");
         let meta = match load_meta(&meta_path) {
             Ok(m) => m,
@@ -368,6 +374,16 @@ impl GitSyncServer {
 
     /// Push to the remote branch. Returns `true` on success, `false` if the push is rejected.
     /// Returns `true` immediately when there is no remote or in local-only mode.
+    /// Undo whatever an add_version that failed part-way left behind: changes in the working
+    /// tree, and, when there is a remote, a commit that was not pushed. The in-memory metadata
+    /// is re-read from what remains.
+    fn discard_failed_write(&mut self) {
+        let _ = self.git.cmd_ok(&self.local_path, &["reset", "--hard"]);
+        let _ = self.git.clean_stray_files(&self.local_path);
+        let _ = self.reset_to_remote();
+        let _ = self.read_meta();
+    }
+
     fn push(&self) -> Result<bool> {
         let Some(remote) = self.remote.as_deref() else {
             return Ok(true);
@@ -382,6 +398,28 @@ impl GitSyncServer {
     /// Encrypt and write a version file named `v-{parent_version_id}-{version_id}`.
     ///
     /// Returns the path of the newly written file.
+    /// The steps of add_version that change the repository: write the version file and the
+    /// metadata, commit, push. Returns whether the push succeeded.
+    fn write_commit_push(&mut self, version: &Version) -> Result<bool> {
+        let version_path = self.add_version_by_parent_version_id(version)?;
+        #[cfg(gothenburgbitfactory_taskchampion_verif)]
+        crate::server::verif::failpoint("git.add_version.after_version_file")?;
+        self.meta.latest_version = version.version_id;
+        let meta_path = self.write_meta()?;
+        #[cfg(gothenburgbitfactory_taskchampion_verif)]
+        crate::server::verif::failpoint("git.add_version.after_meta")?;
+
+        self.git.stage_and_commit(
+            &self.local_path,
+            &[&version_path, &meta_path],
+            "add version",
+        )?;
+        #[cfg(gothenburgbitfactory_taskchampion_verif)]
+        crate::server::verif::failpoint("git.add_version.after_commit")?;
+
+        self.push()
+    }
+
     fn add_version_by_parent_version_id(&self, version: &Version) -> Result<PathBuf> {
         let unsealed = Unsealed {
             version_id: version.version_id,
@@ -655,24 +693,16 @@ impl Server for GitSyncServer {
             parent_version_id,
             history_segment,
         };
-        let version_path = self.add_version_by_parent_version_id(&version)?;
-        #[cfg(gothenburgbitfactory_taskchampion_verif)]
-        crate::server::verif::failpoint("git.add_version.after_version_file")?;
-        self.meta.latest_version = version_id;
-        let meta_path = self.write_meta()?;
-        #[cfg(gothenburgbitfactory_taskchampion_verif)]
-        crate::server::verif::failpoint("git.add_version.after_meta")?;
+        // Write, commit and push. If any step fails, the version must not stay half-added.
+        let pushed = match self.write_commit_push(&version) {
+            Ok(pushed) => pushed,
+            Err(e) => {
+                self.discard_failed_write();
+                return Err(e);
+            }
+        };
 
-        // Commit and push, reverting if push fails.
-        self.git.stage_and_commit(
-            &self.local_path,
-            &[&version_path, &meta_path],
-            "add version",
-        )?;
-        #[cfg(gothenburgbitfactory_taskchampion_verif)]
-        crate::server::verif::failpoint("git.add_version.after_commit")?;
-
-        if !self.push()? {
+        if !pushed {
             // Push was rejected. Undo the commit. reset_to_remote will fetch, reset --hard,
             // and clean away the stray version file.
             self.git
